@@ -564,17 +564,15 @@ Proof.
     + cbn [snd]. change P2PTableEntry_none with NO_ROUTE. apply Z.eqb_neq in Hne. rewrite Hne. reflexivity.
 Qed.
 
-Theorem system_info_exact : forall rd route answers w h,
-  0 <= w < 256 -> 0 <= h < 256 -> routes_valid route -> reads_dims rd w h -> reads_p2p rd route ->
+Lemma system_info_of_truth : forall route answers w h,
   answers_valid answers -> (exists c, has_route route w h c) ->
-  exists si, system_info rd (info_of_machine answers) = Ok si /\
+  exists si, system_info_of_table (info_of_machine answers) (p2p_truth route w h) = Ok si /\
     si_chips si = live_chips route answers w h /\
     (forall c, has_route route w h c -> fst c < si_width si /\ snd c < si_height si) /\
     (exists c, has_route route w h c /\ si_width si = fst c + 1) /\
     (exists c, has_route route w h c /\ si_height si = snd c + 1).
 Proof.
-  intros rd route answers w h Hw Hh Hr Hd Hp Hv [c0 Hc0].
-  unfold system_info. rewrite (p2p_roundtrip rd route w h) by assumption. cbn [bind].
+  intros route answers w h Hv [c0 Hc0]. unfold system_info_of_table.
   set (R := routed (p2p_truth route w h)).
   assert (HR : map fst R <> []).
   { intros Hnil. apply In_routed in Hc0. fold R in Hc0. rewrite Hnil in Hc0. contradiction. }
@@ -594,6 +592,20 @@ Proof.
     apply In_routed. fold R. apply in_map. assumption.
   - apply in_map_iff in Hiny. destruct Hiny as (ce & <- & Hin). exists (fst ce). split; [|reflexivity].
     apply In_routed. fold R. apply in_map. assumption.
+Qed.
+
+Theorem system_info_exact : forall rd route answers w h,
+  0 <= w < 256 -> 0 <= h < 256 -> routes_valid route -> reads_dims rd w h -> reads_p2p rd route ->
+  answers_valid answers -> (exists c, has_route route w h c) ->
+  exists si, system_info rd (info_of_machine answers) = Ok si /\
+    si_chips si = live_chips route answers w h /\
+    (forall c, has_route route w h c -> fst c < si_width si /\ snd c < si_height si) /\
+    (exists c, has_route route w h c /\ si_width si = fst c + 1) /\
+    (exists c, has_route route w h c /\ si_height si = snd c + 1).
+Proof.
+  intros rd route answers w h Hw Hh Hr Hd Hp Hv Hex.
+  unfold system_info. rewrite (p2p_roundtrip rd route w h) by assumption. cbn [bind].
+  apply system_info_of_truth; assumption.
 Qed.
 
 (* what is reported, chip by chip *)
